@@ -112,7 +112,9 @@ def addrsSound (W : Nat) (l : List Rpki.Roa.Addr) : Bool :=
   l.all fun a => Rpki.Roa.addrOk W a && Rpki.IpDer.toMin a.addr a.len == a.addr && a.addr < 2 ^ 128 &&
     (W == 128 || a.addr % 2 ^ 96 == 0)
 
-def handleCodec (toks : List String) (impl : String) : Option Verdict :=
+def handleCodec (toks0 : List String) (impl : String) : Option Verdict :=
+  -- `aspaxa` (add_provider one by one) has the same contract as `aspax` (AspaBuilder::new)
+  let toks := match toks0 with | "aspaxa" :: r => "aspax" :: r | t => t
   let hexOut (b : List Nat) := toHex (b.map UInt8.ofNat)
   match toks with
   | ["roax", asid, v4, v6] =>
